@@ -17,6 +17,8 @@ def legal_steps(tm, version, present_ids, with_tags=False):
             for new in ("Zz", "7"):
                 if tm.find(new) is None:
                     steps.append(("rename", nm, new))
+            if version == "gfa2" and r.rt in ("E", "G", "O", "U") and not any(m == nm for x in tm.recs for m, _ in tm.mentions(x)):
+                steps.append(("rename", nm, "*"))          # an optional identifier can be dropped when nothing mentions it
             if with_tags and r.rt == "S":
                 steps.append(("settag", nm, "xy", 5))
                 if "RC" in r.tags:
